@@ -50,6 +50,35 @@ def skeleton2(rnd, allsoft, symbolic=5):
     return p
 
 
+def directed_sibling_exclusion(rnd):
+    """Directed family: a node that already inherits exclusions declares a dependency with exclusions of its own
+    and, after it, a sibling dependency through which the excluded artifact is reachable: exclusions hold along
+    the path they are declared on, not for siblings."""
+    p = skeleton2(rnd, 1)
+    for k in list(p):
+        if k.endswith("t") and (k.startswith("p") or k.startswith("r")):
+            p[k] = 0
+    p.update({"np": 4, "allsoft": 1, "mgt": 0})
+    A, B, C, Y = rnd.sample([1, 2, 3, 4], 4)
+
+    def put(tag, t, kind=0, x=0, c=1, r=0):
+        p.update({tag + "t": t, tag + "k": kind, tag + "x": x, tag + "c": c, tag + "r": r})
+    # the root's declaration of A carries an exclusion that excludes nothing that matters (A itself, or B's twin)
+    put("r0", A, 4, rnd.choice([A - 1, A - 1, B - 1 if False else A - 1]), rnd.choice([0, 1]))
+    if rnd.random() < 0.3:
+        put("r1", rnd.choice([B, C]), 0, 0, 1)       # sometimes one of them is also a direct dependency
+    for x in (A, B, C, Y):
+        p["nv%d" % (x - 1)] = 1
+        p["mj%d0" % (x - 1)] = 1
+    first = rnd.random() < 0.8   # the excluding declaration comes first (the other order must hold as well)
+    put("p%d0s%d" % (A - 1, 0 if first else 1), B, 4, Y - 1, rnd.choice([0, 1]))
+    put("p%d0s%d" % (A - 1, 1 if first else 0), C, 0, 0, 1)
+    put("p%d0s0" % (C - 1), Y, 0, 0, rnd.choice([0, 1]))
+    if rnd.random() < 0.5:
+        put("p%d0s0" % (B - 1), Y, 0, 0, 1)          # B reaches Y too: excluded on that path
+    return p
+
+
 def run(tier):
     base = dict(unwind=120, timeout_s=600 if tier == "quick" else 3000, summarise=SUM, max_witnesses=1, witness_every=1000, panic_is_violation=True)
     jobs = []
@@ -132,6 +161,8 @@ def run(tier):
     rnd2 = random.Random(20261008)
     for i in range(600 if q else 8000):
         jobs.append(dict(rbase, harness="VerifC07Resolve2", params=skeleton2(rnd2, 1 if i % 3 == 0 else 0)))
+    for i in range(30 if q else 300):
+        jobs.append(dict(rbase, harness="VerifC07Resolve2", params=directed_sibling_exclusion(rnd2)))
     lemmas = [j for j in jobs if not j["harness"].startswith("VerifC07Resolve")]
     whole = [j for j in jobs if j["harness"].startswith("VerifC07Resolve")]
     # two overlays: a change to /repo that stops the unit-lemma harness from compiling (it names unexported helpers)
@@ -140,5 +171,5 @@ def run(tier):
                         required_covers=["requirements parsed", "match expected", "no candidate", "excluded", "not excluded", "dependency followed",
                                          "dependency skipped", "same artifact", "different artifact", "resolved", "a graph with several nodes", "nearest-wins checked", "a declaration excluded on its path"],
                         assumptions=["unit lemmas: findMatch, isExcluded/parseExclusions/mergeExclusions, imports, packageKeyForDependency",
-                                     "whole resolver: universe skeletons (3 artifacts + root, <=3 versions, one requirement slot per version, three for the root, optional root dependencyManagement entry) are a fixed pseudo-random sample; version numbers and the digits in requirements are symbolic in 1..4; the nearest-wins clause, with exclusions inherited along paths, is asserted against a breadth-first reference on the skeletons with soft requirements only (random sample plus a directed diamond-with-exclusion family)"],
+                                     "whole resolver: universe skeletons (3 artifacts + root, <=3 versions, one requirement slot per version, three for the root, optional root dependencyManagement entry) are a fixed pseudo-random sample; version numbers and the digits in requirements are symbolic in 1..4; the nearest-wins clause, with exclusions inherited along paths, is asserted against a breadth-first reference on the skeletons with soft requirements only (random sample plus a directed diamond-with-exclusion family and, in the second generation, a directed family in which a node that inherits exclusions declares an excluding dependency before a sibling through which the excluded artifact is reachable)"],
                         bounds={"requirements": 2 if q else 3, "listed_versions": 3, "digits": "1-4"})
